@@ -283,3 +283,20 @@ def run(F, R, tier):
                 "%s: the guid is %s on the way to the file name (origins %s): a file stored under one spelling is not found under the other "
                 "after a restart" % (name, "transformed by " + ", ".join(lossy) if lossy else "not the expected value", sorted(map(str, org))))
     R.floor("C08.R7", len(sites), 6, "places where the guid becomes a key file name")
+
+    # the key file is parsed exactly as stored: read as UTF-8 text (an invalid byte is an error, the file counts as unreadable) and
+    # handed to serde_json unchanged - a lossy decode would accept a damaged file as a different, valid-looking key
+    fl2 = F.body_of(KK + "fetch_local_key")
+    if fl2:
+        B = mir.Body(fl2, F)
+        ps = B.calls_named("serde_json::from_str", "serde_json::from_slice", "serde_json::from_reader")
+        okp = len(ps) == 1
+        det = "parse sites: %d" % len(ps)
+        if okp:
+            org = B.origins(ps[0][3]["args"][0])
+            lossy = q.lossy_via(B, ps[0][3]["args"][0])
+            okp = bool(org) and all(o[0] == "call" and q.ends(o[1], "std::fs::read_to_string") for o in org) and not lossy and q.ends(ps[0][1] or "", "from_str")
+            det = "parsed value origins %s%s" % (sorted(q.base_name(o[1]) if o[0] == "call" else o[0] for o in org), (", via " + ", ".join(lossy)) if lossy else "")
+        R.check(okp, "C08.R7", R.key("C08.R7", KK + "fetch_local_key", "parsed-as-stored"), "%s:%s" % (fl2["file"], fl2["line"]),
+                "fetch_local_key parses serde_json::from_str(fs::read_to_string(key file)) - strict UTF-8, nothing repaired on the way",
+                "fetch_local_key no longer parses the file's text as stored (%s): a damaged key file can be accepted as a key" % det)
